@@ -1,6 +1,6 @@
 (** C10 — changing representation loses nothing: the obligations, written out in full. *)
 From Coq Require Import List NArith ZArith String.
-From SK Require Import lib.LGraph lib.StrJoin model.C10_Model model.C10_Text model.C10_Rxn model.C10_Dfs proof.C10_Dfs proof.C10_Rxn proof.C10_ImpH proof.C10_HRoundIts proof.C10_GmlEHFull proof.C10_ReindexEHFull proof.C10_Renumber proof.C10_G2MSpec proof.C10_MolMapped proof.C10_RenumberRec proof.C10_Text proof.C10_Proof proof.C10_Hydrogen proof.C10_Routes proof.C10_GmlWrite proof.C10_HRound proof.C10_Routes2 proof.C10_Reindex proof.C10_MolGraph proof.C10_Smart proof.C10_GmlEH proof.C10_Select proof.C10_MolOk proof.C10_Full proof.C10_Attrs proof.C10_Light proof.C10_ReindexEH.
+From SK Require Import lib.LGraph lib.StrJoin model.C10_Model model.C10_Text model.C10_Rxn model.C10_Dfs proof.C10_Dfs proof.C10_Rxn proof.C10_ImpH proof.C10_HRoundIts proof.C10_GmlEHFull proof.C10_ReindexEHFull proof.C10_Renumber proof.C10_G2MSpec proof.C10_G2MExt proof.C10_MolMapped proof.C10_RenumberRec proof.C10_Text proof.C10_Proof proof.C10_Hydrogen proof.C10_Routes proof.C10_GmlWrite proof.C10_HRound proof.C10_Routes2 proof.C10_Reindex proof.C10_MolGraph proof.C10_Smart proof.C10_GmlEH proof.C10_Select proof.C10_MolOk proof.C10_Full proof.C10_Attrs proof.C10_Light proof.C10_ReindexEH.
 Import ListNotations.
 Local Open Scope Z_scope.
 
@@ -759,3 +759,48 @@ Theorem C10_rsmi_side_roundtrip_under_rdkit_contract :
       match graph_to_mol (mol_to_graph m true true) with Some w => write w | None => None end = Some (canon s).
 Proof. exact rsmi_side_roundtrip_under_contract. Qed.
 Print Assumptions C10_rsmi_side_roundtrip_under_rdkit_contract.
+
+(** graph_to_mol depends only on the node order and the two lookups: two molecule-shaped networkx graphs with the same nodes in the
+    same order, the same node dictionaries and the same bond dictionaries hand RDKit the same atoms and, between every pair of atom
+    indices, the same bond — whatever their insertion / adjacency orders are. *)
+Theorem C10_graph_to_mol_extensional :
+  forall G1 G2 : gr, gwfb G1 = true -> gwfb G2 = true ->
+    (forall u v x, adj G1 u v = Some x -> u <> v /\ match e_ord x with Some (OP _ _) => False | _ => True end) ->
+    node_ids G1 = node_ids G2 -> (forall n, label G1 n = label G2 n) -> (forall u v, adj G1 u v = adj G2 u v) ->
+    exists atoms b1 b2, graph_to_mol G1 = Some (atoms, b1) /\ graph_to_mol G2 = Some (atoms, b2) /\
+                        forall i j, bond_find i j b1 = bond_find i j b2.
+Proof. intros G1 G2 H1 H2. apply graph_to_mol_ext; apply gwfb_gwf; assumption. Qed.
+Print Assumptions C10_graph_to_mol_extensional.
+
+(** "Making hydrogens explicit and implicit again ... does not change the molecule", at the level of what is handed to RDKit: for
+    every molecule graph (networkx graph without typesGH and without explicit hydrogens whose bonds join two different atoms and carry
+    a scalar order) graph_to_mol of h_to_implicit (h_to_explicit g) and graph_to_mol of g succeed with the same atoms and the same bond
+    between every pair of atom indices. *)
+Theorem C10_h_roundtrip_molecule :
+  forall g : gr, gwfb g = true -> no_H g = true -> no_tgh g = true ->
+    (forall u v x, adj g u v = Some x -> u <> v /\ match e_ord x with Some (OP _ _) => False | _ => True end) ->
+    exists atoms b1 b2, graph_to_mol (h_to_implicit (h_to_explicit g None false)) = Some (atoms, b1) /\
+                        graph_to_mol g = Some (atoms, b2) /\ forall i j, bond_find i j b1 = bond_find i j b2.
+Proof. exact h_roundtrip_molecule. Qed.
+Print Assumptions C10_h_roundtrip_molecule.
+
+(** THE THREE ROUTES THROUGH THE TEXT: what is written is a TEXT (rule name without a newline) and what gml_to_its reads is that text.
+    For an atom-balanced pair of molecule graphs, each of the three rule texts — whenever its record is in the domain [rec_okb] of the
+    text layer (labels without whitespace / quote, no line containing a section keyword: monitored on every its_to_gml export,
+    text_theorem_domain = all exports of a run; the smart_to_gml record is the same record by C10_two_routes_string_its) — is read by GMLToNX.transform into an ITS that is exactly the reaction centre. *)
+Theorem C10_three_routes_text :
+  forall (r p : gr) (eo : list (N * N)) (explicit_h : bool) (name : str),
+    mol_ok r = true -> mol_ok p = true -> balanced r p = true -> eo_covers r p eo = true -> ~ In 10%N name ->
+    let c := get_rc (its_construct r p eo) in
+    let reads_c := fun X : gr =>
+      (forall n, has_node X n = has_node c n) /\
+      (forall n a, label c n = Some a ->
+         label X n = Some (gml_node n (tg_el (tG_of a)) (tg_ch (tG_of a)) (tg_ch (tH_of a)))) /\
+      (forall u v, adj X u v = adj c u v) in
+    let via_text := fun rec : grec => rec_okb rec = true ->
+      exists X, option_map snd (text_to_nx (render name rec)) = Some X /\ reads_c X in
+    via_text (smart_to_gml r p eo true false explicit_h) /\
+    via_text (its_to_gml (rsmi_to_its r p eo false false) true false explicit_h) /\
+    via_text (its_to_gml (rsmi_to_its r p eo true false) true false explicit_h).
+Proof. exact three_routes_text. Qed.
+Print Assumptions C10_three_routes_text.
